@@ -116,7 +116,7 @@ def run(ctx):
     # range ends: the answer must be None
     for b, s in [(D(1, 1, 2), "3 days ago"), (D(9999, 12, 30), "in 2 days"), (D(5, 1, 1), "1 decade ago"), (D(9990, 6, 1), "in 10 years"), (D(9999, 1, 31), "in 12 months")]:
         cases.append({"s": s, "langs": ["en"], "settings": {"RELATIVE_BASE": b, "TIMEZONE": "UTC"}, "expect": None, "stratum": "overflow"})
-    res = decide(ctx, cases, model_share=1.0 if tier == "quick" else 0.3)
+    res = decide(ctx, cases, model_share=1.0)
     # implicit now: base is the current instant expressed in TIMEZONE, then TO_TIMEZONE (bracketed clock)
     zones = ["UTC", "+0530", "-0800", "Europe/Paris", "America/New_York", "Asia/Kolkata", "Australia/Lord_Howe", "Asia/Tokyo"]
     pairs = [(a, b2) for a in zones for b2 in [None] + zones]
